@@ -1,6 +1,1441 @@
-//! C14 — harness module not built yet.
+//! C14 — Merkle whitelist membership is complete and sound.
+//! Real trees (rs_merkle, SHA-256 and BLAKE3/16) are built for generated member lists, the
+//! two real whitelist contracts are instantiated with the roots on a simulated chain, and
+//! HasMember / Execute / MerkleRoot(s) are driven with every member's own proof and with
+//! adversarial (member, proof) pairs.  Every observation is printed as a Coq term for the
+//! model comparison; the property text is evaluated directly on the answers as monitors.
+use crate::chain::{self, App};
+use crate::util::*;
+use crate::w_merkle::*;
 use crate::Args;
-pub fn run(_a: &Args) {
-    eprintln!("C14: harness module not built yet");
-    std::process::exit(2);
+use cosmwasm_std::{coin, Addr, Timestamp};
+use cw_multi_test::Executor;
+use serde::{Deserialize, Serialize};
+use serde_json::json;
+use std::collections::{BTreeMap, BTreeSet};
+
+const BASE: u64 = chain::GENESIS_NS + 1_000_000_000; // block time of a fresh chain
+const SEC: u64 = 1_000_000_000;
+
+// ---------------------------------------------------------------- member lists
+#[derive(Clone, Debug, Serialize, Deserialize, PartialEq, Eq, PartialOrd, Ord)]
+pub enum Members {
+    /// n address-shaped strings (stars1 + 38 bech32 characters); (i, j) in dups: member j := member i
+    Stars { n: usize, salt: u64, dups: Vec<(usize, usize)> },
+    /// the repo tests' style: addr0001, addr0002, ...
+    Short { n: usize },
+    /// what the Merkle minters compose: [stage] ++ address ++ [allocation]
+    Leaves { n: usize, salt: u64, stage: Option<u32>, alloc: bool },
+    Explicit(Vec<String>),
+}
+impl Members {
+    pub fn list(&self) -> Vec<String> {
+        match self {
+            Members::Stars { n, salt, dups } => {
+                let mut v: Vec<String> = (0..*n as u64).map(|i| stars_addr(i, *salt)).collect();
+                for (i, j) in dups {
+                    if *i < v.len() && *j < v.len() {
+                        v[*j] = v[*i].clone();
+                    }
+                }
+                v
+            }
+            Members::Short { n } => (1..=*n).map(|i| format!("addr{:04}", i)).collect(),
+            Members::Leaves { n, salt, stage, alloc } => (0..*n as u64)
+                .map(|i| leaf_string(*stage, &stars_addr(i, *salt), if *alloc { Some(alloc_of(i)) } else { None }))
+                .collect(),
+            Members::Explicit(v) => v.clone(),
+        }
+    }
+}
+/// the same hex digits in another spelling: 0 as is, 1 upper case, 2 alternating case
+fn spell(root: &str, mode: u8) -> String {
+    match mode {
+        0 => root.to_string(),
+        1 => root.to_uppercase(),
+        2 => root.chars().enumerate().map(|(i, c)| if i % 2 == 0 { c.to_ascii_uppercase() } else { c }).collect(),
+        // 3.. : NOT the same root: one hex digit changed (last / first / middle), halves swapped
+        3 => flip_hex_char(root, root.len() - 1),
+        4 => flip_hex_char(root, 0),
+        5 => flip_hex_char(root, root.len() / 2),
+        _ => format!("{}{}", &root[root.len() / 2..], &root[..root.len() / 2]),
+    }
+}
+fn alloc_of(i: u64) -> u32 {
+    [1u32, 2, 5, 10, 49, 100, 4294967295, 0][(i % 8) as usize]
+}
+/// the member string the Merkle minters hand to HasMember (Rust's own formatting)
+fn leaf_string(stage: Option<u32>, sender: &str, alloc: Option<u32>) -> String {
+    match (stage, alloc) {
+        (None, Some(a)) => format!("{}{}", sender, a),
+        (Some(s), None) => format!("{}{}", s, sender),
+        (Some(s), Some(a)) => format!("{}{}{}", s, sender, a),
+        (None, None) => sender.to_string(),
+    }
+}
+
+// ---------------------------------------------------------------- cases
+#[derive(Clone, Debug, Serialize, Deserialize, PartialEq, Eq, PartialOrd, Ord)]
+pub enum FlatOpKind {
+    UpdateStart(u64),
+    UpdateEnd(u64),
+    UpdateAdmins(Vec<String>),
+    Freeze,
+    /// JSON that is not a variant of ExecuteMsg
+    Raw(String),
+}
+#[derive(Clone, Debug, Serialize, Deserialize, PartialEq, Eq, PartialOrd, Ord)]
+pub enum FlatOp {
+    Exec { now: u64, sender: String, kind: FlatOpKind },
+    Query { member: String, proof: Vec<String> },
+}
+#[derive(Clone, Debug, Serialize, Deserialize, PartialEq, Eq, PartialOrd, Ord)]
+pub enum TieredOpKind {
+    UpdateStage { id: u32, start: Option<u64>, end: Option<u64>, denom: Option<String>, limit: Option<u32> },
+    UpdateAdmins(Vec<String>),
+    Freeze,
+    Raw(String),
+}
+#[derive(Clone, Debug, Serialize, Deserialize, PartialEq, Eq, PartialOrd, Ord)]
+pub enum TieredOp {
+    Exec { now: u64, sender: String, kind: TieredOpKind },
+    Query { now: u64, member: String, proof: Vec<String> },
+}
+
+#[derive(Clone, Debug, Serialize, Deserialize, PartialEq, Eq, PartialOrd, Ord)]
+pub enum Case {
+    /// tree shape: rs_merkle's root and proofs against the model's
+    Tree { blake: bool, members: Members, positions: Option<Vec<usize>> },
+    /// HasMember on whitelist-merkletree instantiated with the root of `members`
+    FlatQuery { members: Members, label: String, member: String, proof: Vec<String> },
+    /// HasMember on whitelist-merkletree instantiated with an arbitrary root string
+    FlatRootQuery { root: String, label: String, member: String, proof: Vec<String> },
+    /// HasMember on tiered-whitelist-merkletree: one list per stage, `nroots` of the roots stored
+    TieredQuery { lists: Vec<Members>, stages: Vec<StageSpec>, nroots: usize, #[serde(default)] spelling: u8, at: u64, label: String, member: String, proof: Vec<String> },
+    FlatHist { now: u64, init: FlatInit, ops: Vec<FlatOp> },
+    TieredHist { now: u64, init: TieredInit, ops: Vec<TieredOp> },
+    Leaf { stage: Option<u32>, sender: String, alloc: Option<u32> },
+    /// a factory-created Merkle vending minter (variant 4 / 5 of w_sale) with a Merkle whitelist
+    /// (flat or one-stage tiered) over `entries`; `sender` mints presenting entry `proof_of`'s proof
+    Mint { variant: usize, tiered: bool, entries: Vec<(Option<u32>, String, Option<u32>)>, sender: String, stage: Option<u32>, alloc: Option<u32>, proof_of: usize, label: String },
+}
+
+fn kind(c: &Case) -> &'static str {
+    match c {
+        Case::Tree { blake: false, .. } => "tree-sha256",
+        Case::Tree { blake: true, .. } => "tree-blake3_16",
+        Case::FlatQuery { .. } => "flat-has_member",
+        Case::FlatRootQuery { .. } => "flat-has_member-given-root",
+        Case::TieredQuery { .. } => "tiered-has_member",
+        Case::FlatHist { .. } => "flat-history",
+        Case::TieredHist { .. } => "tiered-history",
+        Case::Leaf { .. } => "leaf-format",
+        Case::Mint { .. } => "minter-mint-with-proof",
+    }
+}
+
+// ---------------------------------------------------------------- worlds (cached)
+struct World {
+    app: App,
+    flat_code: u64,
+    tiered_code: u64,
+    flat: BTreeMap<String, (Addr, Option<std::rc::Rc<Built>>)>,
+    tiered: BTreeMap<String, (Addr, Vec<std::rc::Rc<Built>>)>,
+    trees: BTreeMap<String, std::rc::Rc<Built>>,
+}
+impl World {
+    fn new() -> Self {
+        let mut app = fresh_app();
+        let flat_code = app.store_code(chain::whitelist_merkletree());
+        let tiered_code = app.store_code(chain::tiered_whitelist_merkletree());
+        World { app, flat_code, tiered_code, flat: BTreeMap::new(), tiered: BTreeMap::new(), trees: BTreeMap::new() }
+    }
+    fn tree(&mut self, blake: bool, m: &Members) -> std::rc::Rc<Built> {
+        let key = format!("{}:{}", blake, serde_json::to_string(m).unwrap());
+        if let Some(t) = self.trees.get(&key) {
+            return t.clone();
+        }
+        let t = std::rc::Rc::new(build_tree(blake, &m.list(), None));
+        self.trees.insert(key, t.clone());
+        t
+    }
+    fn flat_for(&mut self, m: &Members) -> (Addr, std::rc::Rc<Built>) {
+        let key = serde_json::to_string(m).unwrap();
+        if let Some((a, Some(b))) = self.flat.get(&key) {
+            return (a.clone(), b.clone());
+        }
+        let b = self.tree(false, m);
+        chain::set_time(&mut self.app, BASE);
+        let addr = instantiate_flat(&mut self.app, self.flat_code, &flat_default(&b.root_hex(), BASE)).expect("instantiate whitelist-merkletree");
+        self.flat.insert(key, (addr.clone(), Some(b.clone())));
+        (addr, b)
+    }
+    fn flat_root(&mut self, root: &str) -> Result<Addr, String> {
+        let key = format!("root:{}", root);
+        if let Some((a, _)) = self.flat.get(&key) {
+            return Ok(a.clone());
+        }
+        chain::set_time(&mut self.app, BASE);
+        let addr = instantiate_flat(&mut self.app, self.flat_code, &flat_default(root, BASE))?;
+        self.flat.insert(key, (addr.clone(), None));
+        Ok(addr)
+    }
+    fn tiered_for(&mut self, lists: &[Members], stages: &[StageSpec], nroots: usize, spelling: u8) -> (Addr, Vec<std::rc::Rc<Built>>) {
+        let key = serde_json::to_string(&(lists, stages, nroots, spelling)).unwrap();
+        if let Some((a, b)) = self.tiered.get(&key) {
+            return (a.clone(), b.clone());
+        }
+        let built: Vec<_> = lists.iter().map(|m| self.tree(true, m)).collect();
+        let roots: Vec<String> = built.iter().take(nroots).map(|b| spell(&b.root_hex(), spelling)).collect();
+        chain::set_time(&mut self.app, BASE);
+        let init = TieredInit {
+            roots,
+            uris: None,
+            stages: stages.to_vec(),
+            admins: vec![CREATOR.to_string()],
+            mutable: true,
+            funds: vec![(NATIVE.to_string(), FEE)],
+        };
+        let addr = instantiate_tiered(&mut self.app, self.tiered_code, &init).expect("instantiate tiered-whitelist-merkletree");
+        self.tiered.insert(key, (addr.clone(), built.clone()));
+        (addr, built)
+    }
+}
+
+// ---------------------------------------------------------------- running one case
+struct Outcome {
+    coq: String,
+    viol: Vec<(String, String)>, // (key, what)
+    nontrivial: bool,
+    hist: Vec<String>,
+    observed: String,
+    steps: u64,
+}
+
+fn coq_coins(fs: &[(String, u128)], denoms: &mut Ids) -> String {
+    coq_list(&fs.iter().map(|(d, a)| format!("mkCoin {} {}", denoms.id(d), a)).collect::<Vec<_>>())
+}
+fn uri_ok(u: &Option<String>) -> bool {
+    // the harness's fixed pool of uris: valid ones start with a scheme
+    match u {
+        None => true,
+        Some(s) => s.starts_with("https://") || s.starts_with("ipfs://"),
+    }
+}
+fn addr_ok(a: &str) -> bool {
+    a.len() >= 3 && a.len() <= 90 && a.to_lowercase() == a
+}
+fn coq_stage(s: &StageSpec, denoms: &mut Ids) -> String {
+    format!("mkStage {} {} {} {}", s.start, s.end, denoms.id(&s.denom), s.limit)
+}
+fn coq_opt_u64(o: Option<u64>) -> String {
+    coq_opt_n(o)
+}
+
+/// first stage whose window strictly contains t, None when t is in no window; Err when t
+/// sits on some window's edge (the property text does not say who owns an edge instant)
+fn active_by_text(stages: &[StageSpec], t: u64) -> Result<Option<usize>, ()> {
+    if stages.iter().any(|s| s.start == t || s.end == t) {
+        return Err(());
+    }
+    Ok(stages.iter().position(|s| s.start < t && t < s.end))
+}
+
+fn run_case(w: &mut World, c: &Case) -> Outcome {
+    let mut viol = vec![];
+    let mut hist = vec![];
+    match c {
+        Case::Tree { blake, members, positions } => {
+            let ms = members.list();
+            let b = match positions {
+                Some(p) => std::rc::Rc::new(build_tree(*blake, &ms, Some(p))),
+                None => w.tree(*blake, members),
+            };
+            let pos: Vec<usize> = positions.clone().unwrap_or_else(|| (0..ms.len()).collect());
+            let proofs: Vec<String> = pos
+                .iter()
+                .map(|&i| format!("({}%nat, {})", i, coq_list(&b.proofs[i].iter().map(|h| coq_bytes(h)).collect::<Vec<_>>())))
+                .collect();
+            let coq = format!("CTree {} {} {} {}", coq_table(&b.table), coq_strs(&ms), coq_bytes(&b.root), coq_list(&proofs));
+            hist.push(format!("{}:n={}:ok", kind(c), if ms.len() > 65 { "big".to_string() } else { ms.len().to_string() }));
+            Outcome { coq, viol, nontrivial: true, hist, observed: format!("root {}", b.root_hex()), steps: 1 + pos.len() as u64 }
+        }
+        Case::FlatQuery { members, label, member, proof } => {
+            let (addr, b) = w.flat_for(members);
+            let r = has_member(&w.app, &addr, false, member, proof);
+            let listed = b.members.iter().any(|m| m == member);
+            let wf = proof.iter().all(|h| wellformed_hash(h, 32));
+            if !wf && r.is_ok() {
+                viol.push(("C14:flat-malformed-not-error".to_string(), format!("malformed proof element answered {:?}", r)));
+            }
+            if label == "own" && r != Ok(true) {
+                viol.push(("C14:flat-member-rejected".to_string(), format!("listed entry with its own proof answered {:?}", r)));
+            }
+            if !listed && r == Ok(true) {
+                viol.push(("C14:flat-nonmember-accepted".to_string(), format!("unlisted string accepted ({})", label)));
+            }
+            let t = fold_table(false, member, proof);
+            let coq = format!("CQuery {} {} {} {} {}", coq_table(&t), coq_str(&b.root_hex()), coq_str(member), coq_strs(proof), coq_res_bool(&r));
+            hist.push(format!("flat:{}:{}", label, res_tag(&r)));
+            Outcome { coq, viol, nontrivial: wf, hist, observed: format!("{:?}", r), steps: 1 }
+        }
+        Case::FlatRootQuery { root, label, member, proof } => {
+            let addr = w.flat_root(root).expect("instantiate with given root");
+            let r = has_member(&w.app, &addr, false, member, proof);
+            let wf = proof.iter().all(|h| wellformed_hash(h, 32));
+            if !wf && r.is_ok() {
+                viol.push(("C14:flat-malformed-not-error".to_string(), format!("malformed proof element answered {:?}", r)));
+            }
+            if label.starts_with("wrong-root") && r == Ok(true) {
+                viol.push((
+                    "C14:flat-wrong-root-accepted".to_string(),
+                    format!("the stored root {} is not the root of the tree, yet an entry of that tree is accepted ({})", root, label),
+                ));
+            }
+            if label == "own-uppercase-root" && r != Ok(true) {
+                viol.push((
+                    "C14:flat-uppercase-root-never-matches".to_string(),
+                    format!("root given in upper/mixed-case hex passes instantiate, then the listed entry with its own proof answers {:?}", r),
+                ));
+            }
+            let t = fold_table(false, member, proof);
+            let coq = format!("CQuery {} {} {} {} {}", coq_table(&t), coq_str(root), coq_str(member), coq_strs(proof), coq_res_bool(&r));
+            hist.push(format!("flat:{}:{}", label, res_tag(&r)));
+            Outcome { coq, viol, nontrivial: wf, hist, observed: format!("{:?}", r), steps: 1 }
+        }
+        Case::TieredQuery { lists, stages, nroots, spelling, at, label, member, proof } => {
+            let (addr, built) = w.tiered_for(lists, stages, *nroots, *spelling);
+            chain::set_time(&mut w.app, *at);
+            let r = has_member(&w.app, &addr, true, member, proof);
+            let wf = proof.iter().all(|h| wellformed_hash(h, 16));
+            if *spelling >= 3 && r == Ok(true) {
+                viol.push((
+                    "C14:tiered-wrong-root-accepted".to_string(),
+                    "the stored roots are not the roots of the trees, yet an entry is accepted".to_string(),
+                ));
+            }
+            match active_by_text(stages, *at) {
+                Err(()) => {
+                    // an edge instant: the text does not say who owns it, the contract's own
+                    // ActiveStage query does; HasMember must use that stage's root
+                    let act = catch(|| {
+                        w.app.wrap().query_wasm_smart::<Option<tiered_whitelist_merkletree::state::Stage>>(
+                            addr.clone(),
+                            &tiered_whitelist_merkletree::msg::QueryMsg::ActiveStage {},
+                        )
+                    });
+                    if let Ok(Ok(Some(st))) = act {
+                        let own = label.split('@').next().unwrap_or("");
+                        if *spelling == 0 && own == format!("own-{}", st.name) && r != Ok(true) {
+                            viol.push((
+                                "C14:tiered-active-stage-inconsistent".to_string(),
+                                format!("ActiveStage reports {} at {} but its entry with its own proof answers {:?}", st.name, at, r),
+                            ));
+                        }
+                    }
+                }
+                Ok(None) => {
+                    if r.is_ok() {
+                        viol.push(("C14:tiered-inactive-answer".to_string(), format!("no stage active at {} but HasMember answered {:?}", at, r)));
+                    }
+                }
+                Ok(Some(i)) => {
+                    if i < *nroots {
+                        let listed = built[i].members.iter().any(|m| m == member);
+                        if !wf && r.is_ok() {
+                            viol.push(("C14:tiered-malformed-not-error".to_string(), format!("malformed proof element answered {:?}", r)));
+                        }
+                        if label == &format!("own-stage{}", i) && r != Ok(true) && *spelling < 3 {
+                            if *spelling != 0 {
+                                viol.push((
+                                    "C14:tiered-uppercase-root-never-matches".to_string(),
+                                    format!("roots given in upper/mixed-case hex pass instantiate, then an entry of the active stage {} with its own proof answers {:?}", i, r),
+                                ));
+                            } else {
+                                viol.push(("C14:tiered-member-rejected".to_string(), format!("entry of the active stage {} with its own proof answered {:?}", i, r)));
+                            }
+                        }
+                        if !listed && r == Ok(true) {
+                            viol.push((
+                                "C14:tiered-nonmember-accepted".to_string(),
+                                format!("string not listed in the active stage {} accepted ({})", i, label),
+                            ));
+                        }
+                    } else if r == Ok(true) {
+                        viol.push(("C14:tiered-no-root-positive".to_string(), format!("active stage {} has no stored root but HasMember is true", i)));
+                    }
+                }
+            }
+            let mut denoms = denom_ids();
+            let t = fold_table(true, member, proof);
+            let roots: Vec<String> = built.iter().take(*nroots).map(|b| spell(&b.root_hex(), *spelling)).collect();
+            let coq = format!(
+                "CTwQuery {} {} {} {} {} {} {}",
+                coq_table(&t),
+                at,
+                coq_list(&stages.iter().map(|s| coq_stage(s, &mut denoms)).collect::<Vec<_>>()),
+                coq_strs(&roots),
+                coq_str(member),
+                coq_strs(proof),
+                coq_res_bool(&r)
+            );
+            hist.push(format!("tiered:{}:{}", label.split('@').next().unwrap_or(label), res_tag(&r)));
+            Outcome { coq, viol, nontrivial: wf && r.is_ok(), hist, observed: format!("{:?}", r), steps: 1 }
+        }
+        Case::FlatHist { now, init, ops } => {
+            let mut addrs = addr_ids();
+            let mut denoms = denom_ids();
+            let mut app = fresh_app();
+            let code = app.store_code(chain::whitelist_merkletree());
+            chain::set_time(&mut app, *now);
+            let inst = instantiate_flat(&mut app, code, init);
+            let mut table: Vec<(Vec<u8>, Vec<u8>)> = vec![];
+            let mut coq_ops = vec![];
+            let mut steps = 1;
+            let mut any_ok = false;
+            hist.push(format!("flat:instantiate:{}", if inst.is_ok() { "ok" } else { "err" }));
+            if let Ok(addr) = &inst {
+                let root0 = query_root_flat(&app, addr).unwrap_or_default();
+                if root0 != init.root {
+                    viol.push(("C14:flat-root-not-stored".to_string(), format!("instantiated with root {} but MerkleRoot answers {}", init.root, root0)));
+                }
+                for op in ops {
+                    steps += 1;
+                    match op {
+                        FlatOp::Exec { now, sender, kind } => {
+                            chain::set_time(&mut app, *now);
+                            let before = chain::storage_digest(&app, addr);
+                            use whitelist_mtree::msg::ExecuteMsg as E;
+                            let (r, tag, coqm) = match kind {
+                                FlatOpKind::UpdateStart(t) => (
+                                    chain::exec(&mut app, sender, addr, &E::UpdateStartTime(Timestamp::from_nanos(*t)), &[]),
+                                    "update_start_time",
+                                    Some(format!("(WUpdateStartTime {})", t)),
+                                ),
+                                FlatOpKind::UpdateEnd(t) => (
+                                    chain::exec(&mut app, sender, addr, &E::UpdateEndTime(Timestamp::from_nanos(*t)), &[]),
+                                    "update_end_time",
+                                    Some(format!("(WUpdateEndTime {})", t)),
+                                ),
+                                FlatOpKind::UpdateAdmins(a) => (
+                                    chain::exec(&mut app, sender, addr, &E::UpdateAdmins { admins: a.clone() }, &[]),
+                                    "update_admins",
+                                    Some(format!(
+                                        "(WUpdateAdmins {} {})",
+                                        coq_list(&a.iter().map(|x| addrs.id(x).to_string()).collect::<Vec<_>>()),
+                                        coq_bool(a.iter().all(|x| addr_ok(x)))
+                                    )),
+                                ),
+                                FlatOpKind::Freeze => (chain::exec(&mut app, sender, addr, &E::Freeze {}, &[]), "freeze", Some("WFreeze".to_string())),
+                                FlatOpKind::Raw(j) => {
+                                    let v: serde_json::Value = serde_json::from_str(j).expect("raw json");
+                                    (chain::exec(&mut app, sender, addr, &v, &[]), "not-an-execute-msg", None)
+                                }
+                            };
+                            any_ok |= r.is_ok();
+                            let root = query_root_flat(&app, addr).unwrap_or_default();
+                            if root != init.root {
+                                viol.push((
+                                    "C14:flat-root-changed".to_string(),
+                                    format!("MerkleRoot was {} and is {} after {} by {} ({})", init.root, root, tag, sender, if r.is_ok() { "ok" } else { "err" }),
+                                ));
+                            }
+                            if r.is_err() && chain::storage_digest(&app, addr) != before {
+                                viol.push(("C14:flat-rejected-call-wrote".to_string(), format!("{} by {} was rejected but storage changed", tag, sender)));
+                            }
+                            hist.push(format!("flat:{}:{}", tag, if r.is_ok() { "ok" } else { "err" }));
+                            coq_ops.push(match coqm {
+                                Some(m) => format!("WExec {} {} {} {} {}", now, addrs.id(sender), m, coq_bool(r.is_ok()), coq_str(&root)),
+                                None => format!("WUnknown {} {} {} {}", now, addrs.id(sender), coq_bool(r.is_ok()), coq_str(&root)),
+                            });
+                        }
+                        FlatOp::Query { member, proof } => {
+                            let r = has_member(&app, addr, false, member, proof);
+                            table.extend(fold_table(false, member, proof));
+                            hist.push(format!("flat:hist-query:{}", res_tag(&r)));
+                            coq_ops.push(format!("WQuery {} {} {}", coq_str(member), coq_strs(proof), coq_res_bool(&r)));
+                        }
+                    }
+                }
+            }
+            // migrate (same code, by the chain-level admin and by a stranger): the root stays
+            if let Ok(addr) = &inst {
+                for who in [CREATOR, STRANGER] {
+                    let r = catch(|| app.migrate_contract(Addr::unchecked(who), addr.clone(), &cosmwasm_std::Empty {}, code));
+                    steps += 1;
+                    let root = query_root_flat(&app, addr).unwrap_or_default();
+                    hist.push(format!("flat:migrate:{}", if matches!(r, Ok(Ok(_))) { "ok" } else { "err" }));
+                    if root != init.root {
+                        viol.push(("C14:flat-root-changed".to_string(), format!("MerkleRoot was {} and is {} after migrate by {}", init.root, root, who)));
+                    }
+                }
+            }
+            table.sort();
+            table.dedup();
+            let coq = format!(
+                "CWl {} {} {} {} {} {} {} {} {} {} {} {} {}",
+                coq_table(&table),
+                now,
+                coq_coins(&init.funds, &mut denoms),
+                coq_str(&init.root),
+                coq_bool(uri_ok(&init.uri)),
+                init.start,
+                init.end,
+                init.limit,
+                coq_list(&init.admins.iter().map(|x| addrs.id(x).to_string()).collect::<Vec<_>>()),
+                coq_bool(init.admins.iter().all(|x| addr_ok(x))),
+                coq_bool(init.mutable),
+                coq_bool(inst.is_ok()),
+                coq_list(&coq_ops)
+            );
+            Outcome { coq, viol, nontrivial: inst.is_ok() && (any_ok || ops.is_empty()), hist, observed: format!("instantiate {:?}", inst.as_ref().map(|a| a.to_string())), steps }
+        }
+        Case::TieredHist { now, init, ops } => {
+            let mut addrs = addr_ids();
+            let mut denoms = denom_ids();
+            let mut app = fresh_app();
+            let code = app.store_code(chain::tiered_whitelist_merkletree());
+            chain::set_time(&mut app, *now);
+            let inst = instantiate_tiered(&mut app, code, init);
+            let mut table: Vec<(Vec<u8>, Vec<u8>)> = vec![];
+            let mut coq_ops = vec![];
+            let mut steps = 1;
+            let mut any_ok = false;
+            hist.push(format!("tiered:instantiate:{}", if inst.is_ok() { "ok" } else { "err" }));
+            if let Ok(addr) = &inst {
+                let roots0 = query_roots_tiered(&app, addr).unwrap_or_default();
+                if roots0 != init.roots {
+                    viol.push(("C14:tiered-roots-not-stored".to_string(), format!("instantiated with roots {:?} but MerkleRoots answers {:?}", init.roots, roots0)));
+                }
+                for op in ops {
+                    steps += 1;
+                    match op {
+                        TieredOp::Exec { now, sender, kind } => {
+                            chain::set_time(&mut app, *now);
+                            let before = chain::storage_digest(&app, addr);
+                            use tiered_whitelist_merkletree::msg::{ExecuteMsg as E, UpdateStageConfigMsg};
+                            let (r, tag, coqm) = match kind {
+                                TieredOpKind::UpdateStage { id, start, end, denom, limit } => (
+                                    chain::exec(
+                                        &mut app,
+                                        sender,
+                                        addr,
+                                        &E::UpdateStageConfig(UpdateStageConfigMsg {
+                                            stage_id: *id,
+                                            name: if id % 2 == 0 { Some("renamed".to_string()) } else { None },
+                                            start_time: start.map(Timestamp::from_nanos),
+                                            end_time: end.map(Timestamp::from_nanos),
+                                            mint_price: denom.as_ref().map(|d| coin(7, d.clone())),
+                                            per_address_limit: *limit,
+                                            mint_count_limit: if id % 3 == 0 { Some(Some(5)) } else { None },
+                                        }),
+                                        &[],
+                                    ),
+                                    "update_stage_config",
+                                    Some(format!(
+                                        "(TUpdateStageConfig {} {} {} {} {})",
+                                        id,
+                                        coq_opt_u64(*start),
+                                        coq_opt_u64(*end),
+                                        coq_opt_n(denom.as_ref().map(|d| denoms.id(d))),
+                                        coq_opt_n(limit.map(|l| l as u64))
+                                    )),
+                                ),
+                                TieredOpKind::UpdateAdmins(a) => (
+                                    chain::exec(&mut app, sender, addr, &E::UpdateAdmins { admins: a.clone() }, &[]),
+                                    "update_admins",
+                                    Some(format!(
+                                        "(TUpdateAdmins {} {})",
+                                        coq_list(&a.iter().map(|x| addrs.id(x).to_string()).collect::<Vec<_>>()),
+                                        coq_bool(a.iter().all(|x| addr_ok(x)))
+                                    )),
+                                ),
+                                TieredOpKind::Freeze => (chain::exec(&mut app, sender, addr, &E::Freeze {}, &[]), "freeze", Some("TFreeze".to_string())),
+                                TieredOpKind::Raw(j) => {
+                                    let v: serde_json::Value = serde_json::from_str(j).expect("raw json");
+                                    (chain::exec(&mut app, sender, addr, &v, &[]), "not-an-execute-msg", None)
+                                }
+                            };
+                            any_ok |= r.is_ok();
+                            let roots = query_roots_tiered(&app, addr).unwrap_or_default();
+                            if roots != init.roots {
+                                viol.push((
+                                    "C14:tiered-root-changed".to_string(),
+                                    format!("MerkleRoots were {:?} and are {:?} after {} by {} ({})", init.roots, roots, tag, sender, if r.is_ok() { "ok" } else { "err" }),
+                                ));
+                            }
+                            if r.is_err() && chain::storage_digest(&app, addr) != before {
+                                viol.push(("C14:tiered-rejected-call-wrote".to_string(), format!("{} by {} was rejected but storage changed", tag, sender)));
+                            }
+                            hist.push(format!("tiered:{}:{}", tag, if r.is_ok() { "ok" } else { "err" }));
+                            coq_ops.push(match coqm {
+                                Some(m) => format!("TExec {} {} {} {} {}", now, addrs.id(sender), m, coq_bool(r.is_ok()), coq_strs(&roots)),
+                                None => format!("TUnknown {} {} {} {}", now, addrs.id(sender), coq_bool(r.is_ok()), coq_strs(&roots)),
+                            });
+                        }
+                        TieredOp::Query { now, member, proof } => {
+                            chain::set_time(&mut app, *now);
+                            let r = has_member(&app, addr, true, member, proof);
+                            table.extend(fold_table(true, member, proof));
+                            hist.push(format!("tiered:hist-query:{}", res_tag(&r)));
+                            coq_ops.push(format!("TQuery {} {} {} {}", now, coq_str(member), coq_strs(proof), coq_res_bool(&r)));
+                        }
+                    }
+                }
+            }
+            if let Ok(addr) = &inst {
+                for who in [CREATOR, STRANGER] {
+                    let r = catch(|| app.migrate_contract(Addr::unchecked(who), addr.clone(), &cosmwasm_std::Empty {}, code));
+                    steps += 1;
+                    let roots = query_roots_tiered(&app, addr).unwrap_or_default();
+                    hist.push(format!("tiered:migrate:{}", if matches!(r, Ok(Ok(_))) { "ok" } else { "err" }));
+                    if roots != init.roots {
+                        viol.push(("C14:tiered-root-changed".to_string(), format!("MerkleRoots were {:?} and are {:?} after migrate by {}", init.roots, roots, who)));
+                    }
+                }
+            }
+            table.sort();
+            table.dedup();
+            let uris_ok = init.uris.as_ref().map(|v| v.iter().all(|u| uri_ok(&Some(u.clone())))).unwrap_or(true);
+            let coq = format!(
+                "CTw {} {} {} {} {} {} {} {} {} {} {}",
+                coq_table(&table),
+                now,
+                coq_coins(&init.funds, &mut denoms),
+                coq_strs(&init.roots),
+                coq_bool(uris_ok),
+                coq_list(&init.stages.iter().map(|s| coq_stage(s, &mut denoms)).collect::<Vec<_>>()),
+                coq_list(&init.admins.iter().map(|x| addrs.id(x).to_string()).collect::<Vec<_>>()),
+                coq_bool(init.admins.iter().all(|x| addr_ok(x))),
+                coq_bool(init.mutable),
+                coq_bool(inst.is_ok()),
+                coq_list(&coq_ops)
+            );
+            Outcome { coq, viol, nontrivial: inst.is_ok() && (any_ok || ops.is_empty()), hist, observed: format!("instantiate {:?}", inst.as_ref().map(|a| a.to_string())), steps }
+        }
+        Case::Mint { variant, tiered, entries, sender, stage, alloc, proof_of, label } => {
+            use crate::w_sale::{SaleCfg, SaleWorld, WlKind};
+            let mut cfg = SaleCfg::basic(*variant);
+            cfg.wl = WlKind::None;
+            cfg.num_tokens = 20;
+            let mut sw = SaleWorld::new(cfg).expect("sale world");
+            let t0 = sw.t0;
+            let leaves: Vec<String> = entries.iter().map(|(st, a, al)| leaf_string(*st, a, *al)).collect();
+            let b = build_tree(*tiered, &leaves, None);
+            let (ws, we) = (t0 + 1000 * SEC, t0 + 2000 * SEC);
+            let price = json!({"denom": NATIVE, "amount": "60"});
+            let wl_limit = 2u32;
+            let msg = if *tiered {
+                json!({"stages": [{"name": "s1", "start_time": ws.to_string(), "end_time": we.to_string(), "mint_price": price,
+                                   "per_address_limit": wl_limit, "mint_count_limit": null}],
+                       "merkle_roots": [b.root_hex()], "merkle_tree_uris": null, "admins": [CREATOR], "admins_mutable": true})
+            } else {
+                json!({"merkle_root": b.root_hex(), "merkle_tree_uri": null, "start_time": ws.to_string(), "end_time": we.to_string(),
+                       "mint_price": price, "per_address_limit": wl_limit, "admins": [CREATOR], "admins_mutable": true})
+            };
+            let wl = sw.make_whitelist_raw(if *tiered { "tiered-merkle" } else { "merkle" }, &msg, FEE).expect("merkle whitelist");
+            let minter = sw.minter.clone();
+            chain::exec(&mut sw.app, CREATOR, &minter, &json!({"set_whitelist": {"whitelist": wl.to_string()}}), &[]).expect("set_whitelist");
+            chain::set_time(&mut sw.app, (ws + we) / 2);
+            chain::mint_coins(&mut sw.app, sender, 1_000_000, NATIVE);
+            let proof = b.proof_hex(*proof_of);
+            let r = chain::exec(
+                &mut sw.app,
+                sender,
+                &minter,
+                &json!({"mint": {"stage": stage, "proof_hashes": proof, "allocation": alloc}}),
+                &[coin(60, NATIVE)],
+            );
+            let composed = leaf_string(*stage, sender, *alloc);
+            let listed = leaves.iter().any(|l| *l == composed);
+            if !listed && r.is_ok() {
+                viol.push((
+                    "C14:minter-foreign-proof-accepted".to_string(),
+                    format!("{} minted with a proof although \"{}\" is not a leaf of the whitelist tree ({})", sender, composed, label),
+                ));
+            }
+            if label == "own" && *alloc != Some(0) && r.is_err() {
+                viol.push(("C14:minter-own-proof-rejected".to_string(), format!("{} with its own entry and proof was rejected: {:?}", sender, r.as_ref().err())));
+            }
+            let t = fold_table(*tiered, &composed, &proof);
+            let coq = format!(
+                "CMint {} {} {} {} {} {} {} {} {}",
+                coq_table(&t),
+                coq_bool(*tiered),
+                coq_str(&b.root_hex()),
+                coq_str(sender),
+                coq_opt_n(stage.map(|x| x as u64)),
+                coq_opt_n(alloc.map(|x| x as u64)),
+                coq_strs(&proof),
+                wl_limit,
+                coq_bool(r.is_ok())
+            );
+            hist.push(format!("minter{}:{}:{}:{}", variant, if *tiered { "tiered" } else { "flat" }, label, if r.is_ok() { "ok" } else { "err" }));
+            Outcome { coq, viol, nontrivial: true, hist, observed: format!("{:?}", r.as_ref().map(|_| "minted").map_err(|e| e.chars().take(160).collect::<String>())), steps: 3 }
+        }
+        Case::Leaf { stage, sender, alloc } => {
+            let s = leaf_string(*stage, sender, *alloc);
+            let coq = format!(
+                "CLeaf {} {} {} {}",
+                coq_opt_n(stage.map(|x| x as u64)),
+                coq_str(sender),
+                coq_opt_n(alloc.map(|x| x as u64)),
+                coq_str(&s)
+            );
+            hist.push("leaf-format:ok".to_string());
+            Outcome { coq, viol, nontrivial: stage.is_some() || alloc.is_some(), hist, observed: s, steps: 1 }
+        }
+    }
+}
+fn res_tag(r: &Result<bool, String>) -> &'static str {
+    match r {
+        Ok(true) => "true",
+        Ok(false) => "false",
+        Err(_) => "err",
+    }
+}
+
+// ---------------------------------------------------------------- generators
+fn flip_hex_char(s: &str, pos: usize) -> String {
+    let mut b: Vec<u8> = s.bytes().collect();
+    if b.is_empty() {
+        return "00".to_string();
+    }
+    let p = pos % b.len();
+    b[p] = match b[p] {
+        b'0' => b'1',
+        b'f' => b'e',
+        c if c.is_ascii_digit() => c - 1,
+        c => c - 1, // b..f -> a..e ; 'a' -> '`' would be non-hex, so handle it
+    };
+    if b[p] == b'`' {
+        b[p] = b'b';
+    }
+    String::from_utf8(b).unwrap()
+}
+
+/// adversarial (label, member, proof) triples around position i of a built tree
+fn adversarial(b: &Built, i: usize, rng: &mut Rng, outsider: &str) -> Vec<(String, String, Vec<String>)> {
+    let l = b.l();
+    let n = b.members.len();
+    let m = b.members[i].clone();
+    let p = b.proof_hex(i);
+    let j = (i + 1 + rng.below(n.max(2) as u64 - 1) as usize) % n;
+    let pj = b.proof_hex(j);
+    let rand_hash = |rng: &mut Rng| -> String { (0..l).map(|_| format!("{:02x}", rng.below(256))).collect() };
+    let mut v: Vec<(String, String, Vec<String>)> = vec![];
+    // another member's proof, for a listed entry and for an outsider
+    if pj != p {
+        v.push(("listed-other-proof".into(), m.clone(), pj.clone()));
+    }
+    v.push(("outsider-member-proof".into(), outsider.to_string(), p.clone()));
+    v.push(("outsider-other-proof".into(), outsider.to_string(), pj.clone()));
+    v.push(("outsider-empty-proof".into(), outsider.to_string(), vec![]));
+    v.push(("outsider-root-as-proof".into(), outsider.to_string(), vec![b.root_hex()]));
+    // truncated
+    if !p.is_empty() {
+        v.push(("truncated-last".into(), m.clone(), p[..p.len() - 1].to_vec()));
+        v.push(("truncated-first".into(), m.clone(), p[1..].to_vec()));
+        v.push(("listed-empty-proof".into(), m.clone(), vec![]));
+    }
+    // extended
+    let mut e = p.clone();
+    e.push(rand_hash(rng));
+    v.push(("extended-random".into(), m.clone(), e));
+    let mut e = p.clone();
+    e.push(b.root_hex());
+    v.push(("extended-root".into(), m.clone(), e));
+    if let Some(last) = p.last() {
+        let mut e = p.clone();
+        e.push(last.clone());
+        v.push(("extended-repeat-last".into(), m.clone(), e));
+    }
+    // reordered
+    if p.len() >= 2 {
+        let mut r = p.clone();
+        r.reverse();
+        if r != p {
+            v.push(("reordered-reverse".into(), m.clone(), r));
+        }
+        let mut r = p.clone();
+        let a = rng.below(p.len() as u64) as usize;
+        let c = (a + 1) % p.len();
+        r.swap(a, c);
+        if r != p {
+            v.push(("reordered-swap".into(), m.clone(), r));
+        }
+    }
+    // one character of one element changed, still well formed
+    if !p.is_empty() {
+        let k = rng.below(p.len() as u64) as usize;
+        let mut f = p.clone();
+        f[k] = flip_hex_char(&p[k], rng.below(2 * l as u64) as usize);
+        v.push(("bit-flipped".into(), m.clone(), f));
+        // upper-case rendering of the same bytes: well formed, same digest bytes
+        let mut u = p.clone();
+        u[k] = p[k].to_uppercase();
+        v.push(("own-uppercase-element".into(), m.clone(), u));
+    }
+    // malformed elements at a random position of the (otherwise right) proof
+    let base = if p.is_empty() { vec![rand_hash(rng)] } else { p.clone() };
+    let k = rng.below(base.len() as u64) as usize;
+    let good = base[k].clone();
+    let other_l = if l == 32 { 16 } else { 32 };
+    let bads: Vec<(&str, String)> = vec![
+        ("short-by-a-byte", good[..2 * l - 2].to_string()),
+        ("long-by-a-byte", format!("{}00", good)),
+        ("odd-length", good[..2 * l - 1].to_string()),
+        ("other-variant-length", (0..other_l).map(|_| format!("{:02x}", rng.below(256))).collect()),
+        ("empty-string", String::new()),
+        ("non-hex-g", format!("g{}", &good[1..])),
+        ("non-hex-space", format!(" {}", &good[1..])),
+        ("0x-prefixed", format!("0x{}", &good[2..])),
+        ("non-ascii", format!("é{}", &good[2..])),
+    ];
+    for (lab, bad) in bads {
+        let mut f = base.clone();
+        f[k] = bad;
+        v.push((format!("malformed-{}", lab), m.clone(), f));
+    }
+    // malformed last element after a complete valid proof (must still be an error)
+    let mut f = p.clone();
+    f.push("zz".to_string());
+    v.push(("malformed-after-valid".into(), m.clone(), f));
+    // near-miss member strings with the member's own proof
+    v.push(("member-trailing-space".into(), format!("{} ", m), p.clone()));
+    v.push(("member-uppercase".into(), m.to_uppercase(), p.clone()));
+    v.push(("member-digit-appended".into(), format!("{}0", m), p.clone()));
+    v.push(("member-prefix".into(), m[..m.len() - 1].to_string(), p.clone()));
+    v.into_iter().filter(|(lab, mm, _)| !(lab.starts_with("member-") && b.members.contains(mm))).collect()
+}
+
+fn sizes(a: &Args) -> Vec<usize> {
+    let mut v: Vec<usize> = (1..=33).collect();
+    v.extend([64, 65]);
+    if a.thorough() {
+        v.extend([127, 128, 129, 1000, 4097]);
+    }
+    v
+}
+
+fn three_stages(n: usize) -> Vec<StageSpec> {
+    // stage 0 and 1 share an edge instant, stage 2 follows a gap
+    let s0 = BASE + 1000 * SEC;
+    let k = 1 + n % 3;
+    let all = vec![
+        StageSpec { start: s0, end: s0 + 100 * SEC, denom: NATIVE.into(), limit: 1 },
+        StageSpec { start: s0 + 100 * SEC, end: s0 + 200 * SEC, denom: NATIVE.into(), limit: 50 },
+        StageSpec { start: s0 + 300 * SEC, end: s0 + 400 * SEC, denom: NATIVE.into(), limit: 7 },
+    ];
+    all[..k].to_vec()
+}
+fn instants(stages: &[StageSpec]) -> Vec<(String, u64)> {
+    let mut v = vec![("before-all".to_string(), stages[0].start - 1)];
+    for (i, s) in stages.iter().enumerate() {
+        v.push((format!("start{}", i), s.start));
+        v.push((format!("start{}+1", i), s.start + 1));
+        v.push((format!("mid{}", i), (s.start + s.end) / 2));
+        v.push((format!("end{}-1", i), s.end - 1));
+        v.push((format!("end{}", i), s.end));
+        v.push((format!("end{}+1", i), s.end + 1));
+    }
+    v.push(("after-all".to_string(), stages.last().unwrap().end + 1000 * SEC));
+    v
+}
+
+fn gen_cases(a: &Args) -> Vec<Case> {
+    let mut rng = Rng::new(a.seed);
+    let mut cases = vec![];
+    let outsider = stars_addr(999_999, 77);
+
+    // ---- corpus: the repo's own test lists, single entry, duplicates, upper-case root
+    for ms in [
+        Members::Explicit(vec!["onlyone".into()]),
+        Members::Short { n: 5 },
+        Members::Explicit(vec!["tester".into(), "user".into(), "rando".into(), "human".into(), "bot".into()]),
+        Members::Explicit(vec!["aaa".into(), "aaa".into(), "bbb".into()]),
+        Members::Explicit(vec!["same".into(), "same".into()]),
+    ] {
+        let l = ms.list();
+        for blake in [false, true] {
+            cases.push(Case::Tree { blake, members: ms.clone(), positions: None });
+        }
+        let b = build_tree(false, &l, None);
+        for i in 0..l.len() {
+            cases.push(Case::FlatQuery { members: ms.clone(), label: "own".into(), member: l[i].clone(), proof: b.proof_hex(i) });
+        }
+        for (lab, m, p) in adversarial(&b, 0, &mut rng, &outsider) {
+            cases.push(Case::FlatQuery { members: ms.clone(), label: lab, member: m, proof: p });
+        }
+    }
+    {
+        // a root supplied in upper-case or mixed-case hex is accepted by instantiate; every
+        // listed entry must be accepted against it (fixed in /repo c2c314c)
+        let ms = Members::Short { n: 5 }.list();
+        let b = build_tree(false, &ms, None);
+        let bt = build_tree(true, &ms, None);
+        let stages = three_stages(0); // one stage
+        for mode in [1u8, 2] {
+            let r = spell(&b.root_hex(), mode);
+            for i in 0..ms.len() {
+                cases.push(Case::FlatRootQuery { root: r.clone(), label: "own-uppercase-root".into(), member: ms[i].clone(), proof: b.proof_hex(i) });
+                cases.push(Case::TieredQuery {
+                    lists: vec![Members::Short { n: 5 }], stages: stages.clone(), nroots: 1, spelling: mode, at: (stages[0].start + stages[0].end) / 2,
+                    label: "own-stage0".into(), member: ms[i].clone(), proof: bt.proof_hex(i),
+                });
+            }
+            cases.push(Case::FlatRootQuery { root: r.clone(), label: "outsider-uppercase-root".into(), member: outsider.clone(), proof: b.proof_hex(1) });
+            // a stored root that differs from the tree's in one digit / has its halves swapped:
+            // nothing of that tree may be accepted
+            for wrong in [mode + 2, mode + 4] {
+                let r = spell(&b.root_hex(), wrong);
+                for i in 0..ms.len() {
+                    cases.push(Case::FlatRootQuery { root: r.clone(), label: format!("wrong-root-{}", wrong), member: ms[i].clone(), proof: b.proof_hex(i) });
+                    cases.push(Case::TieredQuery {
+                        lists: vec![Members::Short { n: 5 }], stages: stages.clone(), nroots: 1, spelling: wrong, at: (stages[0].start + stages[0].end) / 2,
+                        label: "own-stage0".into(), member: ms[i].clone(), proof: bt.proof_hex(i),
+                    });
+                }
+            }
+            cases.push(Case::TieredQuery {
+                lists: vec![Members::Short { n: 5 }], stages: stages.clone(), nroots: 1, spelling: mode, at: (stages[0].start + stages[0].end) / 2,
+                label: "outsider-uppercase-root".into(), member: outsider.clone(), proof: bt.proof_hex(1),
+            });
+        }
+        // the root is the digest of a single entry: empty proof
+        let one = build_tree(false, &["solo".to_string()], None);
+        cases.push(Case::FlatRootQuery { root: one.root_hex(), label: "single-entry-empty-proof".into(), member: "solo".into(), proof: vec![] });
+    }
+
+    // ---- every size: all members' own proofs + adversarial pairs, both contracts
+    for &n in &sizes(a) {
+        let salt = rng.next_u64() % 1000;
+        let dups = if n >= 3 && n % 4 == 3 { vec![(0, n - 1), (1, 2)] } else if n >= 2 && n % 5 == 0 { vec![(0, 1)] } else { vec![] };
+        let flat_ms = if n % 7 == 6 {
+            Members::Leaves { n, salt, stage: if n % 2 == 0 { Some((n % 3) as u32 + 1) } else { None }, alloc: true }
+        } else {
+            Members::Stars { n, salt, dups: dups.clone() }
+        };
+        let big = n > 65;
+        let all: Vec<usize> = (0..n).collect();
+        let sample: Vec<usize> = if big {
+            let mut s: BTreeSet<usize> = [0, 1, n / 2, n - 2, n - 1].into_iter().collect();
+            for _ in 0..30 {
+                s.insert(rng.below(n as u64) as usize);
+            }
+            s.into_iter().collect()
+        } else {
+            all.clone()
+        };
+        // tree-shape tie: every position for small trees, a sample (both ends, the promoted
+        // tail, random interior positions) for larger ones
+        let tree_pos: Option<Vec<usize>> = if n <= 16 {
+            None
+        } else {
+            let mut s: BTreeSet<usize> = [0, 1, n / 2, n - 2, n - 1].into_iter().collect();
+            for _ in 0..(if a.thorough() { 24 } else { 5 }) {
+                s.insert(rng.below(n as u64) as usize);
+            }
+            Some(s.into_iter().collect())
+        };
+        for blake in [false, true] {
+            cases.push(Case::Tree { blake, members: flat_ms.clone(), positions: tree_pos.clone() });
+        }
+        // flat contract
+        let l = flat_ms.list();
+        let b = build_tree(false, &l, Some(&all));
+        for &i in &sample {
+            cases.push(Case::FlatQuery { members: flat_ms.clone(), label: "own".into(), member: l[i].clone(), proof: b.proof_hex(i) });
+        }
+        let mut picks: BTreeSet<usize> = [n - 1].into_iter().collect();
+        picks.insert(rng.below(n as u64) as usize);
+        if n < 12 {
+            picks.insert(0);
+        }
+        if a.thorough() {
+            picks.insert(rng.below(n as u64) as usize);
+            picks.insert(n / 2);
+        }
+        for &i in &picks {
+            for (lab, m, p) in adversarial(&b, i, &mut rng, &outsider) {
+                cases.push(Case::FlatQuery { members: flat_ms.clone(), label: lab, member: m, proof: p });
+            }
+        }
+        // minter-style leaves: a proof issued for A presented for B, for another allocation, another stage
+        if let Members::Leaves { stage, .. } = &flat_ms {
+            for &i in &picks {
+                let a_addr = stars_addr(i as u64, salt);
+                let b_addr = stars_addr(((i + 1) % n.max(2)) as u64 + 500_000, salt);
+                let al = alloc_of(i as u64);
+                let p = b.proof_hex(i);
+                for (lab, m) in [
+                    ("proof-of-A-presented-by-B", leaf_string(*stage, &b_addr, Some(al))),
+                    ("A-claims-larger-allocation", leaf_string(*stage, &a_addr, Some(al.wrapping_add(1)))),
+                    ("A-claims-other-stage", leaf_string(Some(stage.unwrap_or(0) + 1), &a_addr, Some(al))),
+                    ("A-without-allocation", leaf_string(*stage, &a_addr, None)),
+                ] {
+                    if !l.contains(&m) {
+                        cases.push(Case::FlatQuery { members: flat_ms.clone(), label: lab.into(), member: m, proof: p.clone() });
+                    }
+                }
+            }
+        }
+        // tiered contract: k stages, stage i lists n, n+1, 2 entries (other salts)
+        let stages = three_stages(n);
+        let k = stages.len();
+        let lists: Vec<Members> = (0..k)
+            .map(|s| match s {
+                0 => Members::Leaves { n, salt: salt + 1, stage: Some(1), alloc: n % 2 == 0 },
+                1 => Members::Stars { n: n + 1, salt: salt + 2, dups: vec![] },
+                _ => Members::Stars { n: 2, salt: salt + 3, dups: vec![] },
+            })
+            .collect();
+        let built: Vec<Built> = lists.iter().map(|m| build_tree(true, &m.list(), None)).collect();
+        let times = instants(&stages);
+        for (s, bt) in built.iter().enumerate() {
+            let nn = bt.members.len();
+            let own: Vec<usize> = if nn > 12 && !a.thorough() {
+                let mut o: BTreeSet<usize> = [0, nn - 1].into_iter().collect();
+                o.insert(rng.below(nn as u64) as usize);
+                o.into_iter().collect()
+            } else if nn > 65 {
+                sample.iter().cloned().filter(|&x| x < nn).collect()
+            } else {
+                (0..nn).collect()
+            };
+            // own proofs in the middle of the own stage (all), and at every instant (a few)
+            let mid = (stages[s].start + stages[s].end) / 2;
+            for &i in &own {
+                cases.push(Case::TieredQuery {
+                    lists: lists.clone(), stages: stages.clone(), nroots: k, spelling: 0, at: mid,
+                    label: format!("own-stage{}", s), member: bt.members[i].clone(), proof: bt.proof_hex(i),
+                });
+            }
+            let i = own[rng.below(own.len() as u64) as usize];
+            // quick tier, larger sizes: only the instants around this stage's own window
+            let near = |t: u64| t + 2 >= stages[s].start && t <= stages[s].end + 2;
+            for (tl, t) in times.iter().filter(|(_, t)| a.thorough() || n <= 10 || near(*t)) {
+                cases.push(Case::TieredQuery {
+                    lists: lists.clone(), stages: stages.clone(), nroots: k, spelling: 0, at: *t,
+                    label: format!("own-stage{}@{}", s, tl), member: bt.members[i].clone(), proof: bt.proof_hex(i),
+                });
+            }
+            // adversarial pairs while stage s is active
+            let adv = adversarial(bt, i, &mut rng, &outsider);
+            let take = if a.thorough() { adv.len() } else { 8 };
+            let off = rng.below(adv.len() as u64) as usize;
+            for q in 0..take.min(adv.len()) {
+                let (lab, m, p) = adv[(off + q) % adv.len()].clone();
+                cases.push(Case::TieredQuery { lists: lists.clone(), stages: stages.clone(), nroots: k, spelling: 0, at: mid, label: lab, member: m, proof: p });
+            }
+        }
+        // fewer roots than stages: the uncovered stage must never answer true
+        if k >= 2 && n % 2 == 1 {
+            let bt = &built[k - 1];
+            cases.push(Case::TieredQuery {
+                lists: lists.clone(), stages: stages.clone(), nroots: k - 1, spelling: 0, at: (stages[k - 1].start + stages[k - 1].end) / 2,
+                label: "stage-without-root".into(), member: bt.members[0].clone(), proof: bt.proof_hex(0),
+            });
+            cases.push(Case::TieredQuery {
+                lists: lists.clone(), stages: stages.clone(), nroots: k - 1, spelling: 0, at: (stages[0].start + stages[0].end) / 2,
+                label: "own-stage0".into(), member: built[0].members[0].clone(), proof: built[0].proof_hex(0),
+            });
+        }
+    }
+
+    // ---- the leaf string (Rust formatting of u32) against the model's decimal rendering
+    let mut u32s: Vec<u32> = vec![0, 1, 9, 10, 11, 99, 100, 101, 999, 1000, 65535, 65536, 999_999_999, 1_000_000_000, 2_147_483_647, 2_147_483_648, 4_294_967_294, 4_294_967_295];
+    for _ in 0..40 {
+        u32s.push(rng.u128_any_size() as u32);
+    }
+    for (q, &x) in u32s.iter().enumerate() {
+        let s = stars_addr(q as u64, 5);
+        let y = u32s[(q * 7 + 3) % u32s.len()];
+        cases.push(Case::Leaf { stage: Some(x), sender: s.clone(), alloc: Some(y) });
+        cases.push(Case::Leaf { stage: None, sender: s.clone(), alloc: Some(x) });
+        cases.push(Case::Leaf { stage: Some(x), sender: s.clone(), alloc: None });
+    }
+    cases.push(Case::Leaf { stage: None, sender: "addr0001".into(), alloc: None });
+
+    // ---- minter side: a proof issued for one address is useless to another
+    for variant in [4usize, 5] {
+        for tiered in [false, true] {
+            let a: Vec<String> = (0..5u64).map(|i| stars_addr(i, 900 + variant as u64)).collect();
+            let out = stars_addr(77, 901);
+            // (stage, address, allocation) entries in every arity
+            let entries: Vec<(Option<u32>, String, Option<u32>)> = vec![
+                (Some(1), a[0].clone(), Some(3)),
+                (None, a[1].clone(), Some(10)),
+                (Some(2), a[2].clone(), None),
+                (None, a[3].clone(), None),
+                (Some(1), a[4].clone(), Some(0)),
+            ];
+            let mut push = |label: &str, sender: &str, stage: Option<u32>, alloc: Option<u32>, proof_of: usize| {
+                cases.push(Case::Mint { variant, tiered, entries: entries.clone(), sender: sender.to_string(), stage, alloc, proof_of, label: label.to_string() });
+            };
+            for (i, (st, ad, al)) in entries.iter().enumerate() {
+                push("own", ad, *st, *al, i);
+            }
+            // B presents A's proof with A's stage/allocation; the outsider does the same
+            push("proof-of-A-presented-by-B", &a[1], Some(1), Some(3), 0);
+            push("proof-of-A-presented-by-outsider", &out, Some(1), Some(3), 0);
+            push("proof-of-A-presented-by-outsider", &out, None, None, 3);
+            // A claims a larger allocation / another stage / drops a component, with its own proof
+            push("A-claims-larger-allocation", &a[0], Some(1), Some(4), 0);
+            push("A-claims-other-stage", &a[0], Some(2), Some(3), 0);
+            push("A-drops-allocation", &a[0], Some(1), None, 0);
+            push("A-drops-stage", &a[0], None, Some(3), 0);
+            push("A-adds-allocation", &a[3], None, Some(1), 3);
+            push("A-swaps-stage-and-allocation", &a[0], Some(3), Some(1), 0);
+            // right entry, another entry's proof
+            push("own-entry-other-proof", &a[1], None, Some(10), 2);
+        }
+    }
+    // the stated assumption of leaf_binds_sender (equal address lengths) is needed: with the
+    // mock chain's free-form addresses, "buyer11" can present the proof of ("buyer1", 15) as
+    // ("buyer11", 5) -- the composed strings are identical.  Recorded, not a violation.
+    cases.push(Case::Mint {
+        variant: 4, tiered: false,
+        entries: vec![(None, "buyer1".into(), Some(15)), (None, "buyer2".into(), Some(1))],
+        sender: "buyer11".into(), stage: None, alloc: Some(5), proof_of: 0, label: "caveat-different-length-address".into(),
+    });
+
+    // ---- instantiate probes and execute histories
+    cases.extend(flat_hist_cases(a, &mut rng));
+    cases.extend(tiered_hist_cases(a, &mut rng));
+    cases
+}
+
+fn raw_update_flat(root: &str) -> String {
+    json!({"update_merkle_tree": {"merkle_root": root, "merkle_tree_uri": null}}).to_string()
+}
+fn raw_update_tiered(roots: &[String]) -> String {
+    json!({"update_merkle_tree": {"merkle_roots": roots, "merkle_tree_uris": null}}).to_string()
+}
+
+fn flat_hist_cases(a: &Args, rng: &mut Rng) -> Vec<Case> {
+    let mut v = vec![];
+    let ms = Members::Short { n: 6 }.list();
+    let b = build_tree(false, &ms, None);
+    let root = b.root_hex();
+    let other_root: String = build_tree(false, &["evil".to_string()], None).root_hex();
+    let d = flat_default(&root, BASE);
+    let q = |i: usize| FlatOp::Query { member: ms[i].clone(), proof: b.proof_hex(i) };
+    // instantiate probes (one guard at a time, bound-1 / bound / bound+1)
+    let mut inits: Vec<(u64, FlatInit)> = vec![(BASE, d.clone())];
+    for r in [
+        root[..62].to_string(), format!("{}00", root), root[..32].to_string(), root[..63].to_string(), String::new(),
+        format!("g{}", &root[1..]), root.to_uppercase(), format!("0x{}", &root[2..]),
+    ] {
+        inits.push((BASE, FlatInit { root: r, ..d.clone() }));
+    }
+    for f in [vec![], vec![(NATIVE.to_string(), FEE - 1)], vec![(NATIVE.to_string(), FEE + 1)], vec![("uother".to_string(), FEE)],
+              vec![(NATIVE.to_string(), FEE), ("uother".to_string(), 1)]] {
+        inits.push((BASE, FlatInit { funds: f, ..d.clone() }));
+    }
+    for (s, e) in [(BASE - 1, d.end), (BASE, d.end), (BASE + 1, d.end), (d.end - 1, d.end), (d.end, d.end), (d.end + 1, d.end)] {
+        inits.push((BASE, FlatInit { start: s, end: e, ..d.clone() }));
+    }
+    // before genesis: start below / at / above the genesis mint start time
+    let early = chain::GENESIS_NS - 100 * SEC;
+    for s in [chain::GENESIS_NS - 1, chain::GENESIS_NS, chain::GENESIS_NS + 1] {
+        inits.push((early, FlatInit { start: s, ..d.clone() }));
+    }
+    inits.push((BASE, FlatInit { uri: Some("https://example.com/tree.json".into()), ..d.clone() }));
+    inits.push((BASE, FlatInit { uri: Some("not a url".into()), ..d.clone() }));
+    inits.push((BASE, FlatInit { admins: vec!["x".into()], ..d.clone() }));
+    inits.push((BASE, FlatInit { admins: vec![], mutable: false, ..d.clone() }));
+    for (now, init) in inits {
+        v.push(Case::FlatHist { now, init, ops: vec![q(0)] });
+    }
+    // guard-boundary probes of every Execute message, every sender role
+    let two_admins = FlatInit { admins: vec![CREATOR.into(), ADMIN2.into()], ..d.clone() };
+    for sender in [CREATOR, ADMIN2, STRANGER] {
+        let ex = |now: u64, kind: FlatOpKind| FlatOp::Exec { now, sender: sender.to_string(), kind };
+        for now in [d.start - 1, d.start, d.start + 1] {
+            v.push(Case::FlatHist { now: BASE, init: two_admins.clone(), ops: vec![ex(now, FlatOpKind::UpdateStart(d.start + 5)), q(1)] });
+            v.push(Case::FlatHist { now: BASE, init: two_admins.clone(), ops: vec![ex(now, FlatOpKind::UpdateEnd(d.end + 5)), ex(now, FlatOpKind::UpdateEnd(d.end)), q(1)] });
+        }
+        for t in [d.end - 1, d.end, d.end + 1, chain::GENESIS_NS - 1, chain::GENESIS_NS, 0] {
+            v.push(Case::FlatHist { now: BASE, init: two_admins.clone(), ops: vec![ex(BASE + 5, FlatOpKind::UpdateStart(t)), q(2)] });
+        }
+        for t in [d.start - 1, d.start, d.start + 1, d.end - 1, d.end + 1] {
+            v.push(Case::FlatHist { now: BASE, init: two_admins.clone(), ops: vec![ex(BASE + 5, FlatOpKind::UpdateEnd(t)), ex(d.start + 1, FlatOpKind::UpdateEnd(t)), q(2)] });
+        }
+        v.push(Case::FlatHist {
+            now: BASE, init: two_admins.clone(),
+            ops: vec![ex(BASE + 1, FlatOpKind::UpdateAdmins(vec![STRANGER.into()])), ex(BASE + 2, FlatOpKind::Freeze), ex(BASE + 3, FlatOpKind::UpdateAdmins(vec![CREATOR.into()])), ex(BASE + 4, FlatOpKind::Freeze), q(3)],
+        });
+        v.push(Case::FlatHist { now: BASE, init: two_admins.clone(), ops: vec![ex(BASE + 1, FlatOpKind::UpdateAdmins(vec!["x".into()])), ex(BASE + 1, FlatOpKind::UpdateAdmins(vec![])), q(3)] });
+        // the handler that exists but is not dispatched, under the conditions it would accept
+        for now in [BASE + 1, d.start + 1, d.end - 1, d.end, d.end + 1] {
+            v.push(Case::FlatHist {
+                now: BASE, init: two_admins.clone(),
+                ops: vec![
+                    ex(now, FlatOpKind::Raw(raw_update_flat(&other_root))),
+                    ex(now, FlatOpKind::Raw(json!({"update_merkle_root": other_root}).to_string())),
+                    ex(now, FlatOpKind::Raw(json!({"update_merkle_tree": [other_root, null]}).to_string())),
+                    q(4),
+                    FlatOp::Query { member: "evil".into(), proof: vec![] },
+                ],
+            });
+        }
+    }
+    // structured random histories
+    let nh = if a.thorough() { 400 } else { 40 };
+    for _ in 0..nh {
+        let init = if rng.chance(1, 4) { FlatInit { mutable: false, ..two_admins.clone() } } else { two_admins.clone() };
+        let mut ops = vec![];
+        let (mut st, mut en) = (init.start, init.end);
+        let mut now = BASE;
+        for _ in 0..rng.range(8, 30) {
+            now = match rng.below(6) {
+                0 => st.saturating_sub(rng.below(3)),
+                1 => st + rng.below(3),
+                2 => en + rng.below(3) - 1,
+                3 => now + rng.below(50) * SEC,
+                _ => now + 1,
+            };
+            let sender = if rng.chance(3, 4) { *rng.pick(&[CREATOR, ADMIN2]) } else { STRANGER };
+            let around = |rng: &mut Rng, x: u64| x + rng.below(5) - 2;
+            let kind = match rng.below(12) {
+                0 | 1 | 2 => { let t = if rng.chance(1, 2) { around(rng, en) } else { around(rng, now + 10 * SEC) }; FlatOpKind::UpdateStart(t) }
+                3 | 4 | 5 => { let t = if rng.chance(1, 2) { around(rng, st) } else { around(rng, en + 10 * SEC) }; FlatOpKind::UpdateEnd(t) }
+                6 | 7 => FlatOpKind::UpdateAdmins(if rng.chance(1, 5) { vec!["x".into()] } else { vec![CREATOR.into(), rng.pick(&[ADMIN2, STRANGER]).to_string()] }),
+                8 => FlatOpKind::Freeze,
+                9 => FlatOpKind::Raw(raw_update_flat(&other_root)),
+                _ => {
+                    let i = rng.below(ms.len() as u64) as usize;
+                    ops.push(if rng.chance(3, 4) { q(i) } else { FlatOp::Query { member: ms[i].clone(), proof: b.proof_hex((i + 1) % ms.len()) } });
+                    continue;
+                }
+            };
+            // keep the generator's idea of the window roughly in step with accepted updates
+            if let FlatOpKind::UpdateStart(t) = &kind { if sender != STRANGER && now < st && *t <= en { st = (*t).max(chain::GENESIS_NS); } }
+            if let FlatOpKind::UpdateEnd(t) = &kind { if sender != STRANGER && *t >= st && !(now >= st && *t > en) { en = *t; } }
+            ops.push(FlatOp::Exec { now, sender: sender.to_string(), kind });
+        }
+        ops.push(q(0));
+        v.push(Case::FlatHist { now: BASE, init, ops });
+    }
+    v
+}
+
+fn tiered_hist_cases(a: &Args, rng: &mut Rng) -> Vec<Case> {
+    let mut v = vec![];
+    let stages = three_stages(2); // three stages
+    let lists: Vec<Vec<String>> = (0..3).map(|s| Members::Stars { n: 4 + s, salt: 40 + s as u64, dups: vec![] }.list()).collect();
+    let built: Vec<Built> = lists.iter().map(|l| build_tree(true, l, None)).collect();
+    let roots: Vec<String> = built.iter().map(|b| b.root_hex()).collect();
+    let evil = build_tree(true, &["evil".to_string()], None).root_hex();
+    let d = TieredInit { roots: roots.clone(), uris: None, stages: stages.clone(), admins: vec![CREATOR.into(), ADMIN2.into()], mutable: true, funds: vec![(NATIVE.to_string(), FEE)] };
+    let q = |s: usize, i: usize, now: u64| TieredOp::Query { now, member: built[s].members[i].clone(), proof: built[s].proof_hex(i) };
+    let mid = |s: usize| (stages[s].start + stages[s].end) / 2;
+    // instantiate probes
+    let mut inits: Vec<TieredInit> = vec![d.clone()];
+    let sha_root = build_tree(false, &["x".to_string()], None).root_hex();
+    for rs in [
+        vec![], roots[..1].to_vec(), roots[..2].to_vec(), { let mut r = roots.clone(); r.push(evil.clone()); r },
+        vec![roots[0].clone(), sha_root.clone(), roots[2].clone()], vec![roots[0].clone(), roots[1][..30].to_string(), roots[2].clone()],
+        vec![roots[0].to_uppercase(), roots[1].clone(), format!("g{}", &roots[2][1..])],
+    ] {
+        inits.push(TieredInit { roots: rs, ..d.clone() });
+    }
+    for f in [vec![], vec![(NATIVE.to_string(), FEE - 1)], vec![(NATIVE.to_string(), FEE + 1)], vec![("uother".to_string(), FEE)]] {
+        inits.push(TieredInit { funds: f, ..d.clone() });
+    }
+    let st = |s: u64, e: u64, lim: u32, den: &str| StageSpec { start: s, end: e, denom: den.into(), limit: lim };
+    let s0 = stages[0].start;
+    for ss in [
+        vec![],
+        vec![st(s0, s0 + 10, 1, NATIVE), st(s0 + 10, s0 + 20, 1, NATIVE), st(s0 + 20, s0 + 30, 1, NATIVE), st(s0 + 30, s0 + 40, 1, NATIVE)],
+        vec![st(s0, s0 + 10, 0, NATIVE)], vec![st(s0, s0 + 10, 50, NATIVE)], vec![st(s0, s0 + 10, 51, NATIVE)],
+        vec![st(s0, s0 + 10, 1, NATIVE), st(s0 + 10, s0 + 20, 1, "uother")],
+        vec![st(BASE - 1, s0, 1, NATIVE)], vec![st(BASE, s0, 1, NATIVE)], vec![st(BASE + 1, s0, 1, NATIVE)],
+        vec![st(s0, s0, 1, NATIVE)], vec![st(s0, s0 + 1, 1, NATIVE)], vec![st(s0 + 1, s0, 1, NATIVE)],
+        vec![st(s0, s0 + 10, 1, NATIVE), st(s0 + 9, s0 + 20, 1, NATIVE)], vec![st(s0, s0 + 10, 1, NATIVE), st(s0 + 10, s0 + 20, 1, NATIVE)],
+        vec![st(s0, s0 + 10, 1, NATIVE), st(s0 + 30, s0 + 40, 1, NATIVE), st(s0 + 15, s0 + 20, 1, NATIVE)],
+    ] {
+        inits.push(TieredInit { stages: ss, ..d.clone() });
+    }
+    inits.push(TieredInit { uris: Some(vec!["https://example.com/a".into(), "not a url".into()]), ..d.clone() });
+    inits.push(TieredInit { uris: Some(vec!["ipfs://abc".into()]), ..d.clone() });
+    inits.push(TieredInit { admins: vec!["x".into()], ..d.clone() });
+    for init in inits {
+        let ops = if init.stages.is_empty() { vec![] } else { vec![q(0, 0, (init.stages[0].start + init.stages[0].end) / 2)] };
+        v.push(Case::TieredHist { now: BASE, init, ops });
+    }
+    // guard-boundary probes of UpdateStageConfig, every sender role
+    for sender in [CREATOR, ADMIN2, STRANGER] {
+        let ex = |now: u64, kind: TieredOpKind| TieredOp::Exec { now, sender: sender.to_string(), kind };
+        let us = |id: u32, start: Option<u64>, end: Option<u64>, denom: Option<&str>, limit: Option<u32>| TieredOpKind::UpdateStage { id, start, end, denom: denom.map(|x| x.to_string()), limit };
+        for id in [0u32, 1, 2, 3, 4294967295] {
+            v.push(Case::TieredHist { now: BASE, init: d.clone(), ops: vec![ex(BASE + 1, us(id, None, None, None, Some(9))), q(1, 0, mid(1))] });
+        }
+        for lim in [0u32, 1, 50, 51] {
+            v.push(Case::TieredHist { now: BASE, init: d.clone(), ops: vec![ex(BASE + 1, us(1, None, None, None, Some(lim))), q(1, 1, mid(1))] });
+        }
+        // move stage 1's window: overlap with 0 / touch / gap; then who is active at the old mid instants
+        for (ns, ne) in [
+            (Some(stages[0].end - 1), None), (Some(stages[0].end), None), (Some(stages[0].end + 1), None),
+            (None, Some(stages[2].start - 1)), (None, Some(stages[2].start)), (None, Some(stages[2].start + 1)),
+            (Some(stages[1].end), None), (Some(stages[1].end - 1), None), (None, Some(stages[1].start)),
+            (Some(mid(1)), Some(mid(1) + 10)),
+        ] {
+            v.push(Case::TieredHist {
+                now: BASE, init: d.clone(),
+                ops: vec![ex(BASE + 1, us(1, ns, ne, None, None)), q(1, 0, mid(1)), q(1, 0, mid(1) + 11), q(1, 0, stages[1].start), q(0, 0, stages[1].start), q(1, 0, stages[2].start - 1), q(2, 0, stages[2].start)],
+            });
+        }
+        v.push(Case::TieredHist { now: BASE, init: d.clone(), ops: vec![ex(BASE + 1, us(0, None, None, Some("uother"), None)), ex(mid(0), us(0, Some(BASE), None, None, None)), q(0, 0, BASE + 5)] });
+        v.push(Case::TieredHist {
+            now: BASE, init: d.clone(),
+            ops: vec![ex(BASE + 1, TieredOpKind::UpdateAdmins(vec![STRANGER.into()])), ex(BASE + 2, TieredOpKind::Freeze), ex(BASE + 3, TieredOpKind::UpdateAdmins(vec![CREATOR.into()])), ex(BASE + 4, us(2, None, None, None, Some(3))), q(2, 1, mid(2))],
+        });
+        // the undispatched update handler, at times when it would accept (all stages ended)
+        for now in [BASE + 1, mid(1), stages[2].end - 1, stages[2].end, stages[2].end + 1] {
+            v.push(Case::TieredHist {
+                now: BASE, init: d.clone(),
+                ops: vec![
+                    ex(now, TieredOpKind::Raw(raw_update_tiered(&[evil.clone(), evil.clone(), evil.clone()]))),
+                    ex(now, TieredOpKind::Raw(json!({"update_merkle_roots": [evil.clone()]}).to_string())),
+                    q(0, 0, mid(0)),
+                    TieredOp::Query { now: mid(0), member: "evil".into(), proof: vec![] },
+                ],
+            });
+        }
+    }
+    // every integer literal of the tiered contract's source (and neighbours) joins the limit pool
+    let mut limit_pool: Vec<u32> = vec![0, 1, 2, 49, 50, 51];
+    for l in harvest_literals(&[
+        "contracts/whitelists/tiered-whitelist-merkletree/src/contract.rs",
+        "contracts/whitelists/tiered-whitelist-merkletree/src/helpers/utils.rs",
+    ]) {
+        for d in [l.saturating_sub(1), l, l.saturating_add(1)] {
+            if d <= u32::MAX as u128 {
+                limit_pool.push(d as u32);
+            }
+        }
+    }
+    // structured random histories
+    let nh = if a.thorough() { 400 } else { 40 };
+    for _ in 0..nh {
+        let nst = rng.range(1, 3) as usize;
+        let nroots = if rng.chance(1, 6) { rng.range(0, 3) as usize } else { nst };
+        let init = TieredInit { roots: roots[..nroots].to_vec(), stages: stages[..nst].to_vec(), mutable: !rng.chance(1, 5), ..d.clone() };
+        let mut ops = vec![];
+        let mut now = BASE;
+        let edge = |rng: &mut Rng| -> u64 {
+            let s = &stages[rng.below(3) as usize];
+            let e = if rng.chance(1, 2) { s.start } else { s.end };
+            e + rng.below(5) - 2
+        };
+        for _ in 0..rng.range(8, 30) {
+            now = if rng.chance(1, 3) { edge(rng) } else { now + 1 + rng.below(30) * SEC };
+            let sender = if rng.chance(3, 4) { *rng.pick(&[CREATOR, ADMIN2]) } else { STRANGER };
+            let kind = match rng.below(10) {
+                0..=3 => TieredOpKind::UpdateStage {
+                    id: if rng.chance(1, 8) { 3 } else { rng.below(nst as u64) as u32 },
+                    start: if rng.chance(1, 2) { Some(edge(rng)) } else { None },
+                    end: if rng.chance(1, 2) { Some(edge(rng)) } else { None },
+                    denom: if rng.chance(1, 8) { Some("uother".to_string()) } else if rng.chance(1, 4) { Some(NATIVE.to_string()) } else { None },
+                    limit: if rng.chance(1, 3) { Some(*rng.pick(&limit_pool)) } else { None },
+                },
+                4 => TieredOpKind::UpdateAdmins(if rng.chance(1, 5) { vec!["x".into()] } else { vec![CREATOR.into(), rng.pick(&[ADMIN2, STRANGER]).to_string()] }),
+                5 => TieredOpKind::Freeze,
+                6 => TieredOpKind::Raw(raw_update_tiered(&[evil.clone()])),
+                _ => {
+                    let s = rng.below(3) as usize;
+                    let i = rng.below(built[s].members.len() as u64) as usize;
+                    let t = if rng.chance(1, 2) { edge(rng) } else { mid(rng.below(3) as usize) };
+                    ops.push(q(s, i, t));
+                    continue;
+                }
+            };
+            ops.push(TieredOp::Exec { now, sender: sender.to_string(), kind });
+        }
+        for s in 0..3 {
+            ops.push(q(s, 0, mid(s)));
+        }
+        v.push(Case::TieredHist { now: BASE, init, ops });
+    }
+    v
+}
+
+// ---------------------------------------------------------------- driver
+pub fn run(a: &Args) {
+    let out = OutDir::new(&a.out);
+    let mut rep = Report { property: "C14".into(), tier: a.tier.clone(), seed: a.seed, ..Default::default() };
+    let cases: Vec<Case> = if let Some(p) = &a.replay {
+        #[derive(Deserialize)]
+        struct ReplayFile {
+            case: Case,
+        }
+        let txt = std::fs::read_to_string(p).expect("replay file");
+        let rf: ReplayFile = serde_json::from_str(&txt).expect("replay json");
+        vec![rf.case]
+    } else {
+        gen_cases(a)
+    };
+    let mut w = World::new();
+    let mut coq_cases = Vec::with_capacity(cases.len());
+    let mut distinct = BTreeSet::new();
+    let mut nviol = 0;
+    let mut seen_keys: BTreeMap<String, u32> = BTreeMap::new();
+    for (i, c) in cases.iter().enumerate() {
+        let o = run_case(&mut w, c);
+        rep.evaluations += o.steps;
+        for h in &o.hist {
+            rep.bump(h);
+        }
+        if o.nontrivial {
+            distinct.insert(serde_json::to_string(c).unwrap());
+        }
+        for (key, what) in &o.viol {
+            nviol += 1;
+            let k = seen_keys.entry(key.clone()).or_insert(0);
+            *k += 1;
+            if *k <= 3 {
+                let body = format!(
+                    "{{\n \"property\": \"C14\",\n \"key\": {},\n \"case\": {},\n \"observed\": {},\n \"violation\": {}\n}}\n",
+                    serde_json::to_string(key).unwrap(),
+                    serde_json::to_string(c).unwrap(),
+                    serde_json::to_string(&o.observed).unwrap(),
+                    serde_json::to_string(what).unwrap()
+                );
+                let path = out.write_replay(&format!("C14-{}-{}.json", key.replace("C14:", ""), k), &body);
+                rep.violations.push(Violation { key: key.clone(), what: format!("{}: {} [{}]", kind(c), what, short(c)), replay: path });
+            }
+        }
+        if rep.samples.len() < 3 && (i % 611 == 17 || a.replay.is_some()) {
+            rep.samples.push(json!({"case": short(c), "impl_output": o.observed}));
+        }
+        coq_cases.push(o.coq);
+    }
+    rep.distinct_nontrivial = distinct.len() as u64;
+    rep.rule = "member lists of sizes 1..=33, 64, 65 (thorough: +127..129, 1000, 4097) incl. duplicates and minter-style leaves; rs_merkle trees with SHA-256 and BLAKE3/16; whitelist-merkletree and tiered-whitelist-merkletree instantiated with the roots; HasMember for every member's own proof and for adversarial pairs (other member's proof, outsider, truncated, extended, reordered, one character flipped, wrong-length / non-hex / non-ascii elements, near-miss member strings, A's proof presented by B, other allocation / stage), tiered at 7 instants per stage (edges +-1 ns) and with fewer roots than stages; instantiate guard probes; every Execute message kind (and JSON that is not an ExecuteMsg) from admin / second admin / stranger at guard edges, then MerkleRoot(s). evaluations = contract calls + tree positions checked. Non-trivial = distinct case that is not a mere parse/funds rejection (query with a well-formed proof; history whose instantiate and at least one execute succeeded; tree; leaf with a number).".into();
+    // stride order so that the six shards carry similar weight (cases of one kind are adjacent)
+    let nn = coq_cases.len();
+    let coq_cases: Vec<String> = (0..6).flat_map(|s| (s..nn).step_by(6)).map(|i| coq_cases[i].clone()).collect();
+    out.write_cases("C14", "From Coq Require Import Uint63. From LP Require Import Pay Merkle C14Corr.", "c14_case", "c14_check", &coq_cases, 6, &mut rep);
+    rep.notes.push("assumption named by the tie: no generated member string is 2*L bytes long (the one shape that can be is a bare 64-character contract address against the SHA-256 tree)".into());
+    for c in &cases {
+        if let Case::FlatQuery { member, .. } = c {
+            if member.len() == 64 {
+                rep.notes.push(format!("NOTE: a generated member string is 64 bytes long: {}", member));
+                break;
+            }
+        }
+    }
+    out.finish(&rep);
+    println!("C14 harness: {} cases ({} evaluations), {} monitor violations", cases.len(), rep.evaluations, nviol);
+}
+
+fn short(c: &Case) -> String {
+    let s = format!("{:?}", c);
+    if s.len() > 600 {
+        format!("{}...", &s[..600])
+    } else {
+        s
+    }
 }
